@@ -209,6 +209,9 @@ func (c *c17Gen) step() string {
 			return x + " = " + y + " " + g.Str("|", "&", "-", "^") + " " + c.name() + "\n"
 		case 2:
 			c.use("observe")
+			if c.kind == "set-mixed" {
+				return rec("(" + c.selem() + " in " + x + ", len(" + x + "), " + x + " == " + y + ", " + x + " != " + y + ", len([e for e in " + x + "]))")
+			}
 			return rec("(" + c.selem() + " in " + x + ", len(" + x + "), " + x + " == " + y + ", " + x + " != " + y + ", sorted([e for e in " + x + "]))")
 		case 3:
 			c.use("alias")
@@ -232,6 +235,10 @@ func (c *c17Gen) selem() string {
 	if c.kind == "set-str" {
 		return c.g.Str("'p'", "'q'", "''", "'pq'")
 	}
+	if c.kind == "set-mixed" {
+		// hashable scalars of several types whose values coincide: 1 == 1.0 == True, 0 == 0.0 == False
+		return c.g.Str("0", "1", "2", "True", "False", "1.0", "0.0", "2.5", "None", "2")
+	}
 	return c.ival()
 }
 
@@ -251,14 +258,17 @@ func TestC17(t *testing.T) {
 	}
 	rapid.Check(t, func(rt *rapid.T) {
 		c := &c17Gen{g: &G{T: rt}, r: r, kinds: map[string]bool{}}
-		c.kind = []string{"list", "list", "dict", "set", "set-str"}[c.g.N(5)]
+		c.kind = []string{"list", "list", "dict", "set", "set-str", "set-mixed"}[c.g.N(6)]
+		if c.kind == "set-mixed" && !r.On("c17.set.mixed_numeric") {
+			c.kind = "set"
+		}
 		var sb strings.Builder
 		switch c.kind {
 		case "list":
 			sb.WriteString("a = [1, 2, 3]\nb = a\nc = [3, 1]\n")
 		case "dict":
 			sb.WriteString("a = {'k': 1}\nb = a\nc = {}\n")
-		case "set":
+		case "set", "set-mixed":
 			sb.WriteString("a = {1, 2}\nb = a\nc = set()\n")
 		default:
 			sb.WriteString("a = {'p'}\nb = a\nc = set()\n")
